@@ -253,7 +253,10 @@ func exprPlain(e ast.Expr) string {
 }
 
 func shortType(t types.Type) string {
-	return types.TypeString(t, func(p *types.Package) string { return p.Name() })
+	if t == nil {
+		return "<nil>"
+	}
+	return types.TypeString(types.Unalias(t), func(p *types.Package) string { return p.Name() })
 }
 
 // LitTable returns the field → value-expression table of a struct composite literal.
